@@ -7,9 +7,12 @@ from checks.evalcheck import run_family
 
 def run(ctx):
     run_family(ctx, "c06", 12000)
+    # random deeper programs over every operator, builtin and value kind, recorded from the real evaluator and validated by Trace_Expr
+    tr = ctx.record("prog-random", "expr", ["-mode", "prog", "-n", 40000 if ctx.thorough else 3000, "-seed", ctx.seed * 100 + 6])
+    ctx.validate("prog-random-validate", "trace/Trace_Expr.tla", "trace/Trace_Expr.cfg", tr, "expr", shards=14 if ctx.thorough else 2)
     return ctx.finish(
         rule="every (condition expression, branch expressions, operator) combination of the family, evaluated by the real "
              "evaluator with recording host functions; compared: value (exact decimal / bytes / kind), error, the data map "
-             "afterwards (locals), the host-call log; non-trivial = cases whose outcome the specification pins",
+             "afterwards (locals), the host-call log; plus seeded random programs (depth <= 4, all operators / builtins / value kinds) validated by the trace specification; non-trivial = cases whose outcome the specification pins",
         assumptions=["the unselected operand of && || ?? may or may not be evaluated: cases where that is observable are unpinned",
                      "!x on strings, arrays, maps and typed nil pointers is unpinned"])
